@@ -188,10 +188,26 @@ impl Grapheme {
     }
 }
 
+/// Checks whether `s` consists of exactly one escape sequence
+/// such as `\d`, `\.` or `\u{1f4a9}` and nothing else.
+fn is_single_escape_sequence(s: &str) -> bool {
+    let mut chars = s.chars();
+    if chars.next() != Some('\\') {
+        return false;
+    }
+    match (chars.next(), chars.as_str()) {
+        (Some(_), "") => true,
+        (Some('u'), rest) => {
+            rest.starts_with('{') && rest.ends_with('}') && rest.matches('}').count() == 1
+        }
+        _ => false,
+    }
+}
+
 impl Display for Grapheme {
     fn fmt(&self, f: &mut Formatter<'_>) -> Result {
         let is_single_char = self.char_count(false) == 1
-            || (self.chars.len() == 1 && self.chars[0].matches('\\').count() == 1);
+            || (self.chars.len() == 1 && is_single_escape_sequence(&self.chars[0]));
         let is_range = self.min < self.max;
         let is_repetition = self.min > 1;
         let mut value = if self.repetitions.is_empty() {
